@@ -304,7 +304,11 @@ func (g *GoChannel) Close() error {
 	g.subscribersWg.Wait()
 
 	g.logger.Info("Pub/Sub closed", nil)
-	g.persistedMessages = nil
+
+	// a Publish that passed the closed check may still be persisting: keep the map usable
+	g.persistedMessagesLock.Lock()
+	g.persistedMessages = map[string][]*message.Message{}
+	g.persistedMessagesLock.Unlock()
 
 	return nil
 }
